@@ -11,7 +11,8 @@ CHECKS = {
             "Exact static decision of the finite control tables the comparison algebra rests on: the four Ordering->bool "
             "tables and their algebra (trichotomy, <=, >=, complement), the ordering kernel's 12x12 variant table with operand "
             "order, the route by which == decides each variant pair, the range-membership table over the inclusive bits and the "
-            "bracket->bit / bound->field mapping of the range parser. Not claimed: the numeric/lexicographic meaning of std's "
+            "bracket->bit / bound->field mapping of the range parser; MapValue's PartialEq compares through IndexMap's "
+            "order-insensitive equality only (no positional comparison of the key list). Not claimed: the numeric/lexicographic meaning of std's "
             "cmp, reflexivity/symmetry of == on arbitrary values.",
             "Trusted: rustc nightly front end and MIR construction, the guard-facts extractor, the abstract interpreter "
             "(engine/ai.py) and the spec tables in rules/c13.py (written from the property text).",
@@ -72,7 +73,7 @@ CHECKS["C16"] = ("other",
     "get_by_rules + get_status_result; get_status_result's matching table is decided by a monitor (non-SKIP expectation met iff "
     "some definition has it; SKIP expectation never met when a definition is non-SKIP and decided only after all definitions, "
     "using the counter<=iterations<=len argument); the passed/failed/skipped bucket written for (expectation present, matched) "
-    "is exact in both reporters. Exit codes are covered by C06. Not claimed: equality of the serde_yaml test-input loader with "
+    "is exact in both reporters. JUnit agrees with the other renderings on what failed: one Pass/Fail element per passed_rules/failed_rules entry and the failures attribute accumulated from failed_rules.len(). Exit codes are covered by C06. Not claimed: equality of the serde_yaml test-input loader with "
     "validate's loader; byte-level agreement of the renderings (serde/quick-xml).",
     TB % "c16", "who-calls + monitors via abstract interpretation of MIR (no execution)", "DESIGN.md §5 C16")
 
@@ -82,7 +83,7 @@ CHECKS["C05"] = ("other",
     "evaluation records in iteration order is a violation; console-only and order-insensitive sites are listed with reasons "
     "and a new site fails closed. Walks the field graph of every type handed to serde_json/serde_yaml serializers (honouring "
     "skip_serializing) for std hash containers, checks the ordered containers (BTreeSet/IndexMap, serde_json preserve_order) and "
-    "enumerates clock/env/address reads with the rule that elapsed times only feed time/duration fields. Found and repaired two "
+    "enumerates clock/env/address reads with the rule that elapsed times only feed time/duration fields. Formatting a colored::ColoredString (whose escape sequences depend on CLICOLOR_FORCE / NO_COLOR / the terminal) is an ambient read allowed only where no structured-output builder reaches; the one `singleton` table row (report_at_least_one) has its side condition re-decided at every call site (one compare result per call, no batching). Found and repaired two "
     "genuine defects (test -o json order, rulegen order). Not claimed: byte-identity of the serializers, stdout/stderr interleaving.",
     "Trusted: rustc front end/MIR, the extractor, the call graph (engine/cg.py), the reviewed tables under tables/.",
     "site enumeration + type-graph walk over the resolved program (no execution)", "DESIGN.md §5 C05")
@@ -92,14 +93,14 @@ CHECKS["C09"] = ("other",
     "once and unconditionally, FAIL containers are descended into, nothing is listed or descended for a non-FAIL record, every "
     "record variant the evaluator constructs is known to the table, failure-only clause variants are built with FAIL; "
     "simplified_json_from_root puts PASS into compliant, SKIP into not_applicable, FAIL into neither and copies the file status; "
-    "combine folds with Status::and over an accumulator that starts at the identity SKIP; custom_message of every listed entry "
+    "combine folds with Status::and over an accumulator that starts at the identity SKIP; combine only extends the three buckets (nothing removed or moved); custom_message of every listed entry "
     "depends on the matched record (call-site dependency closure). Not claimed: the content of `checks` for arbitrary programs.",
     TB % "c09", "decision tables + dependency closure via abstract interpretation of MIR (no execution)", "DESIGN.md §5 C09")
 CHECKS["C11"] = ("other",
     "NOT the equality of the two loaders on all scalar spellings (serde_yaml is a dependency; spellings are run-time data). "
     "Decided: the CloudFormation short-form tables (every accepted tag has a long form, k -> Fn::k except Ref/Condition, all 21 "
     "documented tags present, both loaders use the same tables), the libyaml scalar cascade (quoted => String without parsing; "
-    "plain => i64, f64, bool, null spellings in that order; explicit core tag table), rejection of aliases and non-string keys, and "
+    "plain => i64, f64, bool, null spellings in that order; explicit core tag table), every documented (tag, payload form) pair is in the table the libyaml loader consults for that form, rejection of aliases and non-string keys, and "
     "the serde_yaml/serde_json -> Value conversion tables with exactly one insert per map entry / list element.",
     TB % "c11", "literal-table extraction + decision tables via abstract interpretation of MIR (no execution)", "DESIGN.md §5 C11")
 
@@ -123,7 +124,7 @@ CHECKS["C17"] = ("other",
     "PathAwareValue::merge decided as a per-entry monitor (absent key => exactly one value insert and one key record; present key "
     "=> MultipleValues error at once; List/List extends; every other kind pair is an error), every caller of merge returns the "
     "merge error on all paths (no unwrap), and in Validate::execute each of the four evaluation sinks receives the value folded "
-    "from --input-parameters. Found and repaired two genuine defects (payload path ignored the parameters; structured path "
+    "from --input-parameters. The parameter value is loop-invariant in the per-file loops (never taken, replaced or mutably borrowed), and the sibling discovery loops of Validate::execute ask the same file-kind question (Path::is_file). Found and repaired two genuine defects (payload path ignored the parameters; structured path "
     "unwrapped the merge). Not claimed: independence from the order of parameter files.",
     TB % "c17", "monitors + def-use via abstract interpretation of MIR (no execution)", "DESIGN.md §5 C17")
 
@@ -132,7 +133,7 @@ CHECKS["C18"] = ("other",
     "agree (parser name <-> variant <-> printed name round trip, documented arity, variant -> marker -> implementation -> the "
     "expected primitive); every element-wise function pushes exactly one result per element on every non-error path, unresolved "
     "entries and unsupported kinds are skipped (None), the produced kind per input kind is the documented one; a failing "
-    "conversion in the parse_* family is an error and never a default value; count counts exactly the non-UnResolved entries.",
+    "conversion in the parse_* family is an error and never a default value; join, for 0..3 symbolic string elements, pushes e1 d e2 d .. en on every Ok path (the delimiter decision may not look at the accumulated text); count counts exactly the non-UnResolved entries.",
     TB % "c18", "table agreement + per-element monitors via abstract interpretation of MIR (no execution)", "DESIGN.md §5 C18")
 
 CHECKS["C14"] = ("other",
@@ -140,7 +141,7 @@ CHECKS["C14"] = ("other",
     "the resolved program: every keyword parser accepts all documented spellings (when/WHEN, in/IN, exists, empty, keys, some, "
     "this, the seven is_*, true/True, false/False, null/NULL, or/OR/|OR|, not/NOT/!, =/:=) and the spellings of one keyword "
     "produce one value; parse_string is one parser instantiated with both quotes; .n and [n] both build QueryPart::Index from the "
-    "integer parser; the type-block desugaring (Resources, all values, filter Type == name, match_all, not negated); the implicit "
+    "integer parser; the type-block desugaring (Resources, all values, filter Type == name, match_all, not negated); every delimiter-valued character inside it is the captured delimiter; bare nom blank skippers occur only in 8 reviewed intra-clause functions (comments are whitespace between and after clauses); each file-level expression is pushed as ONE line of the default rule; the implicit "
     "default rule (named default, no condition, placed first).",
     "Trusted: rustc front end/MIR, the extractor, the literal-flow extraction in rules/c14.py; nom's combinators (dependency).",
     "literal-set extraction over the resolved MIR (no execution)", "DESIGN.md §5 C14")
@@ -150,7 +151,7 @@ CHECKS["C10"] = ("other",
     "conditions with a symbolic path algebra over both document loaders: list child i is converted with path parent/i (i the "
     "enumeration index), the value under key k with parent/k and stored under k, scalars keep the incoming path; under the libyaml "
     "loader every value takes its own mark (list elements and map values the value's mark, keys the key's mark); mark.line->line, "
-    "mark.column->col; with_location replaces only the location; extend_str appends '/'+part and keeps the location; Path values "
+    "mark.column->col; with_location replaces only the location; the text handed to every document parser is the text as read (backward slice with a copy-only allowlist, 32 call sites); every UnResolved built during retrieval names the function's own traversal parameter as the point reached (13 sites); extend_str appends '/'+part and keeps the location; Path values "
     "are built only by Path's own constructors.",
     TB % "c10", "symbolic path algebra via abstract interpretation of MIR (no execution)", "DESIGN.md §5 C10")
 
@@ -160,7 +161,8 @@ CHECKS["C15"] = ("other",
     "memoised is what is returned, under the requested name; a memo hit is returned without re-evaluation), every site that wraps a "
     "literal let/argument value uses QueryResult::Literal (sibling agreement; one deviant site was a genuine defect and is "
     "repaired), parameter i is bound to argument i after the arity comparison and shadows outer names, and the parser inserts [*] "
-    "after a leading variable.",
+    "after a leading variable; the documented emptiness exception (result-set test) is taken exactly for a query ending in a filter or "
+    "consisting of a single variable part (table over last-part kind x is_variable x length).",
     TB % "c15", "monitors via abstract interpretation of MIR (no execution)", "DESIGN.md §5 C15")
 
 CHECKS["C04"] = ("other",
